@@ -211,6 +211,18 @@ def toArrays (ps : List (Option (Arr α))) : Option (List Nat × List (List α))
         some (a.shape, (some a :: rest).map fun p => match p with | some b => b.data | none => [])
       else none
 
+/-- `_parameters_to_numpy` for a `{charge: value}` dictionary at one profile index: `array = np.zeros(len(param))`, then
+`array[key] = value` for the items **in insertion order** -/
+def dictToArray (n : Nat) (items : List (Nat × α)) : List α :=
+  items.foldl (fun a kv => a.set kv.1 kv.2) (List.replicate n 0)
+
+/-- every species given as a dictionary -/
+def speciesOfDicts (ds : List (List (Nat × α))) : List (List α) := ds.map fun d => dictToArray d.length d
+
+/-- the residual sum of squares that `lsq_linear` minimises -/
+def sumSq (rows cols : Nat) (M : Nat → Nat → α) (b : Nat → α) (x : Nat → α) : α :=
+  sumTo (fun i => (rowDot cols M x i - b i) * (rowDot cols M x i - b i)) rows
+
 /-- the `for index in np.ndindex(*n_e.shape)` loop of `_fractional_abundance`: one point solve per index (C order);
 the result for charge `z` at flat index `k` is `(profileFractional … )[k] z` -/
 def profileFractional (fl : Flags) (solve : Solver α) (Z : Nat) (S A C : α → α → Nat → α) (donor : Bool)
